@@ -157,6 +157,7 @@ pub fn standard_run(case: &Case, acc: &mut Acc, opts: Option<RefOpts>) -> Option
                 probe_after_end: 2,
                 stop_at_error: true,
                 seed: Some(case.rng_seed),
+                continue_on: None,
             },
         );
         if real.steps.len() >= REAL_STEP_CAP {
@@ -165,6 +166,8 @@ pub fn standard_run(case: &Case, acc: &mut Acc, opts: Option<RefOpts>) -> Option
         }
         let mut o = opts.unwrap_or_default();
         o.draws = Some(flatten_draws(&real));
+        // the real run above stopped at its first error item
+        o.continue_after_row_errors = false;
         let rf = match refint::run(&case.program, &case.signals, &case.script, o) {
             RefOutcome::Done(t) => t,
             RefOutcome::Inconclusive(why) => {
@@ -196,6 +199,15 @@ pub fn standard_run(case: &Case, acc: &mut Acc, opts: Option<RefOpts>) -> Option
             probe_after_end: 2,
             stop_at_error: true,
             seed: Some(case.rng_seed),
+            // the caller model goes on after row-level errors (failed call of a row, virtual
+            // signal of a row not evaluable) exactly where the reference does
+            continue_on: Some(
+                rf.items
+                    .iter()
+                    .enumerate()
+                    .map(|(k, _)| rf.err_vars.contains_key(&k))
+                    .collect(),
+            ),
         },
     );
     count_events(acc, &real);
